@@ -114,7 +114,7 @@ pub fn judge(rep: &mut Report, t: &[[f32; 2]; 3], spans: &[Span], strict_sig: bo
                 let d = geo::tri_edge_dist(p, &v);
                 rep.worst("miscovered_centre_edge_distance_px(strict domain)", if extent <= 64.0 { d } else { 0.0 }, BAND, || format!("{t:?} centre {p:?}"));
                 if d >= BAND {
-                    let sig = if !strict_sig && extent > 128.0 && d <= drift_allowance_tri(extent, maxy - miny) {
+                    let sig = if !strict_sig && extent > 64.0 && d <= drift_allowance_tri(extent, maxy - miny) {
                         "raster.edge_drift_large_extent"
                     } else if inside {
                         "raster.inside_centre_missed"
